@@ -1400,6 +1400,10 @@ def select_seq(seq, idx):
         return seq[k]
     if not all(isinstance(v, (int, bool, SymInt, SymBool)) for v in seq):
         raise Unsupported("symbolic index into a long non-integer sequence")
+    if n >= 3 and all(type(v) is int for v in seq):
+        d = seq[1] - seq[0]
+        if all(seq[i + 1] - seq[i] == d for i in range(n - 1)):
+            return seq[0] + d * iz  # arithmetic progression: exact closed form
     res = seq[n - 1]
     for i in range(n - 2, -1, -1):
         res = sym_ite(iz == i, seq[i], res)
